@@ -23,6 +23,10 @@
  *   rd   <maxpixels> <is_targa> <hex>
  *        the reader alone, driven like cjpeg does (8-bit): select_file_type, start_input, get_pixel_rows
  *        until image_height rows ->  rd ok <w> <h> <comps> <warnings> | s0 s1 ...   |  rd err <NAME>
+ *   cmykrt <prec> <w> <h> <seed> <nprint>
+ *        random RGB image (bright-biased) written as raw P6 with maxval 2^prec-1; load as TJPF_CMYK (cmyk1); save
+ *        cmyk1 as CMYK; reload as RGB and as CMYK: RGB must equal the original, CMYK must equal cmyk1
+ *        ->  cmykrt ok <pixels> | r g b c m y k  (first nprint pixels)   |  cmykrt MISMATCH ...
  *   argv[2] = "fork": every case runs in a forked child; a child that dies prints nothing and the
  *        parent prints  CRASH <how> <first sanitizer line>
  *   cj   <maxpixels> <is_targa> <hex>
@@ -468,6 +472,76 @@ static void cmd_rd(char *p)
   free(samples);
 }
 
+static void cmd_cmykrt(char *p)
+{
+  int prec, w, h, nprint, maxs, pf, w2 = 0, h2 = 0, i, n, bad = 0;
+  unsigned long long seed;
+  int *rgb;
+  void *c1 = NULL, *rgb2 = NULL, *c2 = NULL;
+  FILE *f;
+  tjhandle hnd;
+  if (sscanf(p, "%d %d %d %llu %d", &prec, &w, &h, &seed, &nprint) < 5) { printf("bad case\n"); return; }
+  maxs = (1 << prec) - 1;
+  n = w * h;
+  rs = seed * 2654435761ULL + 88172645463325252ULL;
+  rgb = malloc(sizeof(int) * 3 * (size_t)n);
+  for (i = 0; i < n; i++) {
+    int k, mode = rnd() % 8;
+    for (k = 0; k < 3; k++) rgb[3 * i + k] = (int)(rnd() % (unsigned)(maxs + 1));
+    if (mode < 3) rgb[3 * i + rnd() % 3] = maxs - (int)(rnd() % 8 % (unsigned)(maxs + 1));      /* bright: max near full scale */
+    else if (mode == 3) rgb[3 * i + rnd() % 3] = maxs;
+    else if (mode == 4) { int v = rgb[3 * i]; rgb[3 * i + 1] = v; if (rnd() & 1) rgb[3 * i + 2] = v; }
+    else if (mode == 5) for (k = 0; k < 3; k++) rgb[3 * i + k] = (int)(rnd() % 4);                  /* dark */
+    for (k = 0; k < 3; k++) if (rgb[3 * i + k] < 0) rgb[3 * i + k] = 0;
+  }
+  f = fopen(tmpname, "wb");
+  fprintf(f, "P6\n%d %d\n%d\n", w, h, maxs);
+  for (i = 0; i < 3 * n; i++) {
+    if (prec > 8) fputc(rgb[i] >> 8, f);
+    fputc(rgb[i] & 255, f);
+  }
+  fclose(f);
+  hnd = tj3Init(TJINIT_COMPRESS);
+  tj3Set(hnd, TJPARAM_PRECISION, prec);
+  pf = TJPF_CMYK;
+  c1 = do_load(hnd, prec, tmpname, &w2, 1, &h2, &pf);
+  if (!c1 || w2 != w || h2 != h || pf != TJPF_CMYK) { printf("cmykrt err load-cmyk %s\n", c1 ? "geometry" : err_class(tj3GetErrorStr(hnd))); goto done; }
+  if (do_save(hnd, prec, tmpname, c1, w, 0, h, TJPF_CMYK) < 0) { printf("cmykrt err save-cmyk %s\n", err_class(tj3GetErrorStr(hnd))); goto done; }
+  pf = TJPF_RGB;
+  rgb2 = do_load(hnd, prec, tmpname, &w2, 1, &h2, &pf);
+  pf = TJPF_CMYK;
+  c2 = do_load(hnd, prec, tmpname, &w2, 1, &h2, &pf);
+  if (!rgb2 || !c2) { printf("cmykrt err reload %s\n", err_class(tj3GetErrorStr(hnd))); goto done; }
+  for (i = 0; i < n && !bad; i++) {
+    int k;
+    for (k = 0; k < 3; k++)
+      if (get_sample(rgb2, prec, 3 * (size_t)i + k) != rgb[3 * i + k]) bad = 1;
+    for (k = 0; k < 4; k++) {
+      if (get_sample(c2, prec, 4 * (size_t)i + k) != get_sample(c1, prec, 4 * (size_t)i + k)) bad = 1;
+      if (get_sample(c1, prec, 4 * (size_t)i + k) > maxs) bad = 1;
+    }
+    if (bad)
+      printf("cmykrt MISMATCH precision %d pixel %d: RGB %d %d %d -> CMYK %d %d %d %d -> saved, reloaded CMYK %d %d %d %d RGB %d %d %d\n",
+             prec, i, rgb[3 * i], rgb[3 * i + 1], rgb[3 * i + 2],
+             get_sample(c1, prec, 4 * (size_t)i), get_sample(c1, prec, 4 * (size_t)i + 1), get_sample(c1, prec, 4 * (size_t)i + 2), get_sample(c1, prec, 4 * (size_t)i + 3),
+             get_sample(c2, prec, 4 * (size_t)i), get_sample(c2, prec, 4 * (size_t)i + 1), get_sample(c2, prec, 4 * (size_t)i + 2), get_sample(c2, prec, 4 * (size_t)i + 3),
+             get_sample(rgb2, prec, 3 * (size_t)i), get_sample(rgb2, prec, 3 * (size_t)i + 1), get_sample(rgb2, prec, 3 * (size_t)i + 2));
+  }
+  if (!bad) {
+    printf("cmykrt ok %d |", n);
+    for (i = 0; i < n && i < nprint; i++)
+      printf(" %d %d %d %d %d %d %d", rgb[3 * i], rgb[3 * i + 1], rgb[3 * i + 2],
+             get_sample(c1, prec, 4 * (size_t)i), get_sample(c1, prec, 4 * (size_t)i + 1), get_sample(c1, prec, 4 * (size_t)i + 2), get_sample(c1, prec, 4 * (size_t)i + 3));
+    printf("\n");
+  }
+done:
+  if (c1) tj3Free(c1);
+  if (rgb2) tj3Free(rgb2);
+  if (c2) tj3Free(c2);
+  free(rgb);
+  tj3Destroy(hnd);
+}
+
 static void run_case(char *p)
 {
   if (!strncmp(p, "load ", 5)) cmd_load(p + 5, 0);
@@ -477,6 +551,7 @@ static void run_case(char *p)
   else if (!strncmp(p, "cj ", 3)) cmd_cj(p + 3, 0);
   else if (!strncmp(p, "cjx ", 4)) cmd_cj(p + 4, 1);
   else if (!strncmp(p, "rd ", 3)) cmd_rd(p + 3);
+  else if (!strncmp(p, "cmykrt ", 7)) cmd_cmykrt(p + 7);
   else printf("bad command\n");
 }
 
